@@ -342,7 +342,17 @@ def work(item):
                                 "sig": "slicing_removed_the_start_symbol"})
         res["outcomes"] = 0
         return res
-    forecaster = PacketForecaster(grammar)
+    try:
+        forecaster = PacketForecaster(grammar)
+    except Exception as e:
+        # building the forecaster for a spec the front end (and slicing) accepted must not fail: no forecast can be made at all
+        v = {"grammar": fan[len(PRELUDE):], "history": "", "kind": "predict_raises", "error": f"constructing the forecaster: {type(e).__name__}: {e}"[:200],
+             "sliced_grammar_has_derivation_cycle": False, "sig": f"forecaster_construction_raises:{type(e).__name__}"}
+        if parties is not None:
+            v["sliced_to"] = sorted(parties)
+        res["viol"].append(v)
+        res["outcomes"] = 0
+        return res
     alphabet = sorted({LETTER[k] for k in LETTER if k[2] in rules and vis(k)})
     seen = set()
     frontier = [("", DerivationTree(NonTerminal("<start>")))]
